@@ -130,17 +130,21 @@ def _root_.InfernoVerif.Ring.Obs.to (E : Elem β) (x : Obs β) (d : DType) : Obs
 def Stack.to (E : Elem β) (s : Stack β) (d : DType) : Stack β :=
   ⟨d, s.oshape, s.rows.map (·.map (E.conv s.dt d))⟩
 
-/-- `torch.cat(parts, 0)`: result dtype by promotion, every part converted to it -/
+/-- rows of `s` as dtype `d` (no conversion when it already has that dtype) -/
+def Stack.rowsAs (E : Elem β) (s : Stack β) (d : DType) : List (List β) :=
+  if s.dt = d then s.rows else (s.to E d).rows
+
+/-- `torch.cat(parts, 0)`: result dtype by promotion, parts of another dtype converted to it -/
 def cat (E : Elem β) : List (Stack β) → Stack β
   | [] => ⟨true, [], []⟩
   | p :: ps =>
     let d := (p :: ps).foldl (fun a q => promote a q.dt) true
-    ⟨d, p.oshape, ((p :: ps).map fun q => (q.to E d).rows).flatten⟩
+    ⟨d, p.oshape, ((p :: ps).map fun q => q.rowsAs E d).flatten⟩
 
-/-- `t[i, ...] = x` (in place; the value is converted to `t`'s dtype) -/
+/-- `t[i, ...] = x` (in place; a value of another dtype is converted to `t`'s dtype) -/
 def Stack.setRowE (E : Elem β) (s : Stack β) (i : Int) (x : Obs β) : Except Err (Stack β) :=
   match pyIndex s.rows.length i with
-  | some k => .ok { s with rows := s.rows.set k (x.vals.map (E.conv x.dt s.dt)) }
+  | some k => .ok { s with rows := s.rows.set k (if x.dt = s.dt then x.vals else x.vals.map (E.conv x.dt s.dt)) }
   | none => .error .IndexError
 
 /-- `t[idx, ...] = x` for a 1-D index tensor (in place, distinct indices) -/
